@@ -413,6 +413,50 @@ func (r *Runner) execMacro(a Action) {
 		r.exec(Action{Op: "heal"}) // the old request can be delivered now
 		w.Advance(20*time.Millisecond, r.sample)
 		r.feat("stale-installsnapshot-from-a-deposed-leader")
+	case "slowtransfer":
+		// a leadership transfer to a follower that is cut off and behind stays in
+		// progress for a whole election time-out; client calls made meanwhile are
+		// refused (and a refused call has no effect); the leader keeps leadership
+		li, L := r.leader()
+		if L == nil {
+			return
+		}
+		fi := -1
+		for i := range r.ids {
+			if i != li && r.live(i) != nil {
+				fi = i
+				break
+			}
+		}
+		if fi < 0 {
+			return
+		}
+		w.Mu.Lock()
+		r.cut[[2]string{r.ids[li], r.ids[fi]}] = true
+		r.cut[[2]string{r.ids[fi], r.ids[li]}] = true
+		r.lastFaultMs = w.Now()
+		w.Mu.Unlock()
+		r.doApply(L, 2, 0)
+		w.Advance(10*time.Millisecond, r.sample)
+		r.doTransfer(L, fi)
+		w.Advance(time.Duration(2+a.N)*time.Millisecond, r.sample)
+		switch a.Arg % 4 {
+		case 0:
+			r.doUserRestore(L, 3, 1)
+		case 1:
+			r.doApply(L, 2, 0)
+		case 2:
+			r.doBarrier(L)
+		default:
+			r.doMembership(L, "demote", fi, 0)
+		}
+		r.feat("client-call-during-a-slow-leadership-transfer")
+		w.Advance(L.Conf.ElectionTimeout+20*time.Millisecond, r.sample)
+		w.Mu.Lock()
+		delete(r.cut, [2]string{r.ids[li], r.ids[fi]})
+		delete(r.cut, [2]string{r.ids[fi], r.ids[li]})
+		r.lastFaultMs = w.Now()
+		w.Mu.Unlock()
 	case "inflightfault":
 		// the leader has calls in flight (its followers do not answer), then its
 		// own log store fails the next append
